@@ -24,8 +24,11 @@ CHECKS = {
    ref="DESIGN.md §4 C02"),
  "C16": dict(
    text="The coded surfaces are regenerated as expression trees by symbolic execution of the current Python "
-        "source (Camelback; Lennard-Jones 2-4 atoms; Gupta Au-Ag-Au; the inherited finite-difference "
-        "gradient/Hessian on the Quadratic surface; classifier thresholds). Lean proves, about exactly those "
+        "source (Camelback; Lennard-Jones pair kernel and 2-4 atoms unrolled; Gupta Au-Ag-Au; the inherited "
+        "finite-difference gradient/Hessian on the Quadratic AND the (non-separable) Camelback surface; classifier "
+        "thresholds); the Lennard-Jones gradient is proved exact for EVERY atom count through a loop model whose body "
+        "is the regenerated pair kernel and which is proved equal to the unrolled regenerated terms at N = 2, 3, 4 "
+        "(C16_lj_grad_N, C16_lj_fg_N, C16_ljN_translation, C16_ljN_matches_unrolled). Lean proves, about exactly those "
         "trees: soundness of symbolic differentiation (E.sound: HasDerivAt by induction on expressions), coded "
         "gradient/Hessian = derivatives at every point (no vanishing denominator), function_gradient = "
         "(function, gradient), central differences exact on quadratics and off by a3*h^2 on cubics, symmetric "
@@ -101,7 +104,8 @@ CHECKS = {
         "for < 2 minima, invariant under renumbering and energy shift, linear in the energy scale. Scan constants and "
         "operators regenerated from the source (bridge); pure correspondence on real networks (exact dyadic windows "
         "and float windows with near-tie skipping).",
-   note="minimax is characterised as the least threshold admitting a path; populations (exp/norm) are abstract "
+   note="the minimax value is the minimum over walks of the highest transition state, exists for every connected pair, is "
+        "the energy of a stored transition state and is unique (Props/C18Minimax.lean); populations (exp/norm) are abstract "
         "non-negative inputs; binary64 observed by the correspondence.",
    technique="Lean 4 proof (reachability, scan = filter, height within one step, partition refinement, roughness algebra) "
              "+ regenerated constants bridge + pure differential correspondence",
@@ -110,7 +114,8 @@ CHECKS = {
    text="Lean theorems over an aliasing-faithful model of the four selectors, fill, truncation and select_batch, for "
         "any sorting permutation returned by argsort: no excluded minimum, no repeat, size <= requested, fixed size "
         "filled when enough allowed minima exist, coordinates of the listed minima, Lowest sorted, Monotonic iff "
-        "characterisation, Barrier pairwise separation and completeness, Topographical = Monotonic then Barrier; the "
+        "characterisation, Barrier pairwise separation and completeness (also about the TRUE minimax barrier, not only the "
+        "scanned height: C17_barrier_true_barrier), Topographical = Monotonic then Barrier; the "
         "repaired scan window covers every minimax value between the lowest minimum and the highest TS (negation "
         "witness for the original window). Operators, skip tests, the e_range expression and dispatch strings are "
         "regenerated from the source; exact-grid correspondence of all selectors on real networks.",
@@ -139,7 +144,8 @@ CHECKS = {
         "(incl. self-connections), dimension k >= 1 and any history, readNetwork (the loader spec regenerated from "
         "the current source) of dumpNetwork returns the same labels, coordinates, edges with data on the same pairs, "
         "counts and history, energies rounded to 5 decimals; negation theorems for the original loader (single "
-        "minimum / single TS / 1-D coordinates -> IndexError, empty history wrong shape). Real dump->read on all small "
+        "minimum / single TS / 1-D coordinates -> IndexError, empty history wrong shape); composed with C02: every network "
+        "ANY edit history can produce round-trips (C06_roundtrip_reachable). Real dump->read on all small "
         "shapes and random larger ones compared with the model; numpy shape rules validated table by table.",
    note="decimal formatting/parsing of floats (%.18e round-trips binary64, %8.5f rounds) is a validated contract; "
         "round5 is abstract and idempotent.",
@@ -284,7 +290,10 @@ CHECKS = {
         "good and every stored transition state is not lower than either connected minimum by more than the matching "
         "tolerance unless its push-off was flagged - the tolerance arises exactly because a found minimum may be "
         "matched to a stored one (C01_barrier_from_matching); pruning preserves everything (survivors keep data and "
-        "connections). Trace-driven tie: the real NetworkSampling pipeline (Camelback, Schwefel, random cosine surfaces "
+        "connections). The assumptions on offered points are discharged from the other properties' theorems: "
+        "C04's post-condition => admissible record, C10's contract => good minimum, and C20 (step stays in the box) o C10 "
+        "o C08 (stored = outputs of successful minimisations) => every minimum global optimisation stores is good "
+        "(C01_minima_from_global_optimisation). Trace-driven tie: the real NetworkSampling pipeline (Camelback, Schwefel, random cosine surfaces "
         "in 2-5 dimensions with stationary points on and off the box faces; random order and repetition of get_minima, "
         "get_transition_states with both schemes and bounds pruning, reconverge_minima, reconverge_landscape) runs with "
         "the gate entry points, match relation, removal and reset wrapped from outside; the logged stream is replayed "
